@@ -283,6 +283,7 @@ def shard(ctx):
             from . import c16
             doc = conform.gen_document(rng, rng.choice([2, 3, 3, 4]))
             judge(ctx, {"input": conform.explicit(doc), "container": None, "scripting": False}, "conforming")
+            judge(ctx, {"input": conform.variant(rng, doc)[0], "container": None, "scripting": False}, "conforming-variant")
             om = c16.omitted_variant(ctx, rng, doc)
             if om is not None:
                 judge(ctx, {"input": om, "container": None, "scripting": rng.random() < 0.2}, "conforming-omitted")
